@@ -80,25 +80,35 @@ func (s *c10Sys) bounds(after string) []clustermc.Fail {
 			continue
 		}
 		total, inuse := 0, 0
+		_ = inuse
 		for _, f := range m.DB.VerifDMap().VerifFragments() {
 			if f.Kind != "primary" || f.Name != "dmap.d" {
 				continue
 			}
-			total += f.Stats.Length
-			inuse += f.Stats.Inuse
+			// measured on the decoded entries of the tables, not taken from the store's own statistics
+			// (the numbers the eviction itself relies on)
+			length, used := len(f.Entries), 0
+			for _, e := range f.Entries {
+				used += 29 + len(e.Key) + len(e.Value)
+			}
+			if length != f.Stats.Length || used != f.Stats.Inuse {
+				fs = append(fs, clustermc.Fail{Key: "stats-differ-from-stored-entries", What: fmt.Sprintf("after %s: member %s partition %d stores %d entries / %d bytes, its statistics say %d entries / %d bytes in use", after, m.Name, f.PartID, length, used, f.Stats.Length, f.Stats.Inuse)})
+			}
+			total += length
+			inuse += used
 			if o.MaxKeys > 0 {
 				share := o.MaxKeys / owned
 				if share < 1 {
 					share = 1
 				}
-				if f.Stats.Length > share {
-					fs = append(fs, clustermc.Fail{Key: "maxkeys/partition-over-share", What: fmt.Sprintf("after %s: member %s partition %d holds %d keys, its share is %d (MaxKeys=%d, %d owned partitions)", after, m.Name, f.PartID, f.Stats.Length, share, o.MaxKeys, owned)})
+				if length > share {
+					fs = append(fs, clustermc.Fail{Key: "maxkeys/partition-over-share", What: fmt.Sprintf("after %s: member %s partition %d holds %d keys, its share is %d (MaxKeys=%d, %d owned partitions)", after, m.Name, f.PartID, length, share, o.MaxKeys, owned)})
 				}
 			}
 			if o.MaxInuse > 0 {
 				share := o.MaxInuse / owned
-				if f.Stats.Inuse > share+s.P.EntryLen {
-					fs = append(fs, clustermc.Fail{Key: "maxinuse/partition-over-share", What: fmt.Sprintf("after %s: member %s partition %d uses %d bytes, share %d + one entry (%d)", after, m.Name, f.PartID, f.Stats.Inuse, share, s.P.EntryLen)})
+				if used > share+s.P.EntryLen {
+					fs = append(fs, clustermc.Fail{Key: "maxinuse/partition-over-share", What: fmt.Sprintf("after %s: member %s partition %d uses %d bytes, share %d + one entry (%d)", after, m.Name, f.PartID, used, share, s.P.EntryLen)})
 				}
 			}
 		}
